@@ -15,12 +15,18 @@ for name in names:
         if r.returncode:
             subprocess.check_call("patch -p1 -s < %s" % os.path.join(d, "patch.diff"), cwd=scratch, shell=True)
         ids = [meta["property"]] + [c for c in meta.get("checks", {}) if c != meta["property"]] + meta.get("also_check", [])
+        fast = os.environ.get("SEED_FAST") == "1"
         for cid in dict.fromkeys(ids):
+            if fast and cid != meta["property"] and any(v.get("exit") == 1 and v.get("rerun") for v in meta.get("checks", {}).values()):
+                # fast mode: another check already detected it in this run; keep the older record of this one
+                continue
             env = dict(os.environ, VERIF_REPO=scratch, VERIF_OUT=os.path.join(scratch, "out_" + cid), PYTHONHASHSEED="0")
             r = subprocess.run([os.path.join(VERIF, "check"), cid, "--tier", os.environ.get("VERIF_TIER", "quick")], cwd=VERIF, env=env, capture_output=True, text=True, timeout=7200)
             sigs = [l.strip()[len("signature: "):] for l in r.stdout.splitlines() if l.strip().startswith("signature:")]
-            meta.setdefault("checks", {})[cid] = {"exit": r.returncode, "signatures": sigs[:8], "tier": os.environ.get("VERIF_TIER", "quick")}
-        meta["detected_by"] = sorted(c for c, v in meta["checks"].items() if v["exit"] == 1)
+            meta.setdefault("checks", {})[cid] = {"exit": r.returncode, "signatures": sigs[:8], "tier": os.environ.get("VERIF_TIER", "quick"), "rerun": True}
+        for v in meta["checks"].values():
+            v.pop("rerun", None)
+        meta["detected_by"] = sorted(c for c, v in meta["checks"].items() if v.get("exit") == 1)
         json.dump(meta, open(os.path.join(d, "meta.json"), "w"), indent=1)
         print(name, "detected_by", meta["detected_by"], {c: v["signatures"][:2] for c, v in meta["checks"].items()})
     finally:
